@@ -8,6 +8,8 @@ import (
 	"go/types"
 	"sync"
 
+	"golang.org/x/tools/go/cfg"
+
 	"pgoverif/checker/an"
 	"pgoverif/checker/core"
 	"pgoverif/checker/load"
@@ -161,3 +163,5 @@ func enclosingFuncName(pk *load.Package, f *ast.File, n ast.Node) string {
 	}
 	return core.ShortPath(pk.Path)
 }
+
+type cfgBlock = cfg.Block
